@@ -837,7 +837,8 @@ def extra(ctx):
         if sig in seen:
             continue
         seen.add(sig)
-        f["case"] = f.get("probe")
+        pr = f.get("probe")
+        f["case"] = P.portable_case(pr[0], pr[1]) if pr else None
         f["case_kind"] = "probe"
         out.append(f)
     return out
@@ -868,7 +869,8 @@ def widen(ctx, disagreements):
         if sig in seen:
             continue
         seen.add(sig)
-        f["case"] = f.get("probe")
+        pr = f.get("probe")
+        f["case"] = P.portable_case(pr[0], pr[1]) if pr else None
         f["case_kind"] = "probe"
         out.append(f)
     return out
